@@ -284,14 +284,19 @@ def xo_theorems(u, done):
                  ("long_jump", f"{E}.long_jump = {M}.longJump", ["C06"]),
                  ("from_seed", f"∀ k seed, {E}.from_seed k seed = if isAllZero seed then k 0 else {M}.gen.decode seed", ["C01", "C08"]),
                  ("seed_from_u64", f"∀ k x, {E}.seed_from_u64 k x = k (SplitMix64.fill {M}.gen.seedLen (SplitMix64.seedFromU64 x)).1", ["C08", "C09"])]
+    # C05 is self-relative (the outputs are projections of the generator's OWN native stream): the definition of the native
+    # operation is not its subject, only how the other operations are derived from it
+    native = None if G == "SplitMix64" else ("next_u32" if u.shape[1] == 32 else "next_u64")
     for fn, stmt, props in pairs:
         if fn in done:
+            if fn == native:
+                props = [p for p in props if p != "C05"]
             th.append((f"{G}.{fn}", stmt, props, fn))
     return th
 
 def xorshift_theorems(u, done):
     E = "Ext.XorShiftRng"
-    pairs = [("next_u32", f"{E}.next_u32 = XorShift.nextU32", ["C04", "C05", "C07"]),
+    pairs = [("next_u32", f"{E}.next_u32 = XorShift.nextU32", ["C04", "C07"]),          # native operation: not C05's subject
              ("next_u64", f"{E}.next_u64 = XorShift.nextU64", ["C05", "C07"]),
              ("fill_bytes", f"∀ st n, {E}.fill_bytes st n = XorShift.fill n st", ["C05", "C07"]),
              ("from_seed", f"{E}.from_seed = XorShift.fromSeed", ["C04", "C08"])]
